@@ -19,7 +19,7 @@ vars == <<di, dp, endcap, input, k, m1, m2>>
 U == PickU(UName)
 \* a delimiter regex that can match at the end of the input ('$') reads to the end wherever the input ends
 EndCapable(prog) == \E c \in DOMAIN prog : \E i \in 1..Len(prog[c].fields) :
-                       LET f == prog[c].fields[i] IN f.k = "Data" /\ f.size.m = "regex" /\ f.size.r \in {"EOS", "Xplus_or_end"}
+                       LET f == prog[c].fields[i] IN f.k = "Data" /\ f.size.m = "regex" /\ f.size.r \in {"EOS", "dollar", "Xplus_or_end"}
 USeq == SetToSeq(U)
 
 Init == LET us == USeq IN
